@@ -46,7 +46,7 @@ Proof. intros c i. apply (list_inputs_partial_gen the_code the_guards the_chk_in
 Theorem list_inputs_complete_thm :
   k_fix_lookup the_code = true -> k_fix_constref the_code = true -> k_fix_nonj2 the_code = true -> k_fix_suptpl the_code = true ->
   forall c i, f_lc (c_flags c) = false -> rejected c = false -> ns_clash the_code c i = false ->
-  trig_py the_code c i = false -> trig_sup_refs the_code c = false ->
+  eff_trig_tpl the_code c i = false -> trig_sup_refs the_code c = false ->
   forall x, In x (all_influences the_code c i) -> is_config_input c x = false ->
   forall f, exists out, run the_code (li_of c) i f = (f, out, Ok) /\ In x out.
 Proof. exact (list_inputs_complete_gen the_code the_guards the_chk_inputs the_chk_stable). Qed.
@@ -59,7 +59,7 @@ Proof. repeat split; reflexivity. Qed.
 
 Theorem list_inputs_complete_live :
   forall c i, f_lc (c_flags c) = false -> rejected c = false -> ns_clash the_code c i = false ->
-  trig_py the_code c i = false -> trig_sup_refs the_code c = false ->
+  eff_trig_tpl the_code c i = false -> trig_sup_refs the_code c = false ->
   forall x, In x (all_influences the_code c i) -> is_config_input c x = false ->
   forall f, exists out, run the_code (li_of c) i f = (f, out, Ok) /\ In x out.
 Proof.
@@ -72,7 +72,7 @@ Proof. intros c i f H. unfold run. unfold rejected in H. rewrite H. reflexivity.
 
 (* ---- witnesses (a made-up language so that they depend on the translated code only) -------- *)
 Definition w_tfr (n : N) (j2 : bool) (cl : option cls) (refs : list str) : tfile :=
-  {| tf_name := [n]; tf_path := [[112]; [n]]; tf_j2 := j2; tf_py := false; tf_cls := cl; tf_refs := refs; tf_dyn := false |}.
+  {| tf_name := [n]; tf_path := [[112]; [n]]; tf_j2 := j2; tf_py := false; tf_pkg := false; tf_linked := false; tf_cls := cl; tf_refs := refs; tf_dyn := false |}.
 Definition w_tf (n : N) (j2 : bool) (cl : option cls) : tfile := w_tfr n j2 cl [].
 Definition w_res : sres := {| sr_name := [115]; sr_stem := [115]; sr_j2 := true; sr_path := [[112]; [115]] |}.
 (* templates p/A (class Any, includes b) and p/b; an unreferenced p/u *)
@@ -104,6 +104,38 @@ Definition w_inputs_constref : inputs :=
   {| i_roots := [{| t_key := 1; t_ns := [[114]]; t_stem := [65]; t_kind := KStructure; t_src := [[114]; [65]]; t_deps := []; t_crefs := [2] |}];
      i_lookup := [w_type 2 108 68 []]; i_root_dir := [[114]] |}.
 
+
+(* F-LIST-INPUTS-PYRES / F-LIST-INPUTS-SYMLINKDIR (until design_notes/C08_list_inputs_closure_fix.patch is in the tree): a .py
+   resource included by a class template, and a template below a symbolically linked sub-directory of --templates, are served
+   by the loader, influence the output and are not listed *)
+Definition w_res_file (n : N) (py linked : bool) : tfile :=
+  {| tf_name := [n]; tf_path := [[112]; [n]]; tf_j2 := negb py; tf_py := py; tf_pkg := false; tf_linked := linked; tf_cls := None;
+     tf_refs := []; tf_dyn := false |}.
+Definition w_tpl_pyres : list tfile := [w_tfr 65 true (Some CAny) [[120]]; w_res_file 120 true false].
+Definition w_tpl_linked : list tfile := [w_tfr 65 true (Some CAny) [[120]]; w_res_file 120 false true].
+Lemma list_inputs_pyres_refuted_w : k_fix_pyres the_code = false -> k_fix_nonj2 the_code = true ->
+  let c := w_cfg SNever false (Some w_tpl_pyres) None in let x := [[112]; [120]] in
+  eff_trig_tpl the_code c w_inputs_plain = true
+  /\ path_in x (influence_set the_code c w_inputs_plain) = true /\ path_in x (listed c w_inputs_plain) = false.
+Proof. intros H H'. vm_compute in H, H'. first [discriminate H | discriminate H' | vm_compute; repeat split; reflexivity]. Qed.
+Lemma list_inputs_linkdir_refuted_w : k_fix_linkdir the_code = false ->
+  let c := w_cfg SNever false (Some w_tpl_linked) None in let x := [[112]; [120]] in
+  eff_trig_tpl the_code c w_inputs_plain = true
+  /\ path_in x (influence_set the_code c w_inputs_plain) = true /\ path_in x (listed c w_inputs_plain) = false.
+Proof. intros H. vm_compute in H. first [discriminate H | vm_compute; repeat split; reflexivity]. Qed.
+
+(* F-LIST-INPUTS-SUPREFS: a --support-templates override that includes a further template of its directory; only the rendered
+   resource is listed *)
+Definition w_sup_dir_refs : list tfile :=
+  [{| tf_name := [115]; tf_path := [[100]; [115]]; tf_j2 := true; tf_py := false; tf_pkg := false; tf_linked := false; tf_cls := None;
+      tf_refs := [[104]]; tf_dyn := false |};
+   {| tf_name := [104]; tf_path := [[100]; [104]]; tf_j2 := true; tf_py := false; tf_pkg := false; tf_linked := false; tf_cls := None;
+      tf_refs := []; tf_dyn := false |}].
+Lemma list_inputs_suprefs_refuted_w :
+  let c := w_cfg SAsNeeded false None (Some w_sup_dir_refs) in let x := [[100]; [104]] in
+  trig_sup_refs the_code c = true /\ eff_trig_lookup the_code w_inputs_plain = false /\ eff_trig_tpl the_code c w_inputs_plain = false
+  /\ path_in x (influence_set the_code c w_inputs_plain) = true /\ path_in x (listed c w_inputs_plain) = false.
+Proof. vm_compute. repeat split; reflexivity. Qed.
 
 (* non-vacuity: a real run that succeeds and creates type and support files and their directories; its listing *)
 Definition created (c : cfg) (i : inputs) (p : path) : option entry := fst (fst (run the_code (real_of c) i fs_empty)) p.
@@ -189,8 +221,8 @@ Proof. intros H. unfold run. cbn [real_of lo_of li_of]. unfold ns_clash. cbn [wi
 (* two custom templates with the same basename in different sub-directories are both listed *)
 Definition w_nested_dir : list tfile :=
   [w_tf 65 true (Some CAny);
-   {| tf_name := [109; 47; 98]; tf_path := [[112]; [109]; [98]]; tf_j2 := true; tf_py := false; tf_cls := None; tf_refs := []; tf_dyn := false |};
-   {| tf_name := [115; 47; 98]; tf_path := [[112]; [115]; [98]]; tf_j2 := true; tf_py := false; tf_cls := None; tf_refs := []; tf_dyn := false |}].
+   {| tf_name := [109; 47; 98]; tf_path := [[112]; [109]; [98]]; tf_j2 := true; tf_py := false; tf_pkg := false; tf_linked := false; tf_cls := None; tf_refs := []; tf_dyn := false |};
+   {| tf_name := [115; 47; 98]; tf_path := [[112]; [115]; [98]]; tf_j2 := true; tf_py := false; tf_pkg := false; tf_linked := false; tf_cls := None; tf_refs := []; tf_dyn := false |}].
 Lemma example_same_basename_both_listed :
   let c := w_cfg SNever false (Some w_nested_dir) None in
   path_in [[112]; [109]; [98]] (listed c w_inputs_plain) = true /\ path_in [[112]; [115]; [98]] (listed c w_inputs_plain) = true.
